@@ -751,10 +751,16 @@ pub struct Issue {
     pub property: &'static str,
     pub kind: &'static str,
     pub detail: String,
+    /// Position in the run's event order at which the anomaly became visible (u64::MAX = only at the end).
+    pub seq: u64,
 }
 
 fn issue(v: &mut Vec<Issue>, property: &'static str, kind: &'static str, detail: String) {
-    v.push(Issue { property, kind, detail });
+    v.push(Issue { property, kind, detail, seq: u64::MAX });
+}
+
+fn issue_at(v: &mut Vec<Issue>, property: &'static str, kind: &'static str, detail: String, seq: u64) {
+    v.push(Issue { property, kind, detail, seq });
 }
 
 /// Compare the real verdict with the reference verdict (graph-level semantics, C01).
@@ -845,7 +851,7 @@ pub fn check_beacons(sc: &Scenario, rv: &RefVerdict, info: &RefInfo, run: &RealR
                 let k = obs_seen.entry((b.tag, b.node)).or_insert(0);
                 if let Some(exp) = expected_obs.get(&(b.tag, b.node, *k)) {
                     if normalise_obs(exp) != normalise_obs(&b.payload) {
-                        issue(out, "C03", "observed-values", format!("solution tag {} node id {} read #{k}: observed {:?}, overlay says {exp:?}", b.tag, b.node, b.payload));
+                        issue_at(out, "C03", "observed-values", format!("solution tag {} node id {} read #{k}: observed {:?}, overlay says {exp:?}", b.tag, b.node, b.payload), b.seq);
                     }
                 }
                 *k += 1;
@@ -1021,7 +1027,8 @@ impl NodeSpy {
 
 /// Every node the real run started must have started from exactly what the reference predicts,
 /// and at most once (exactly once when the set is accepted).
-pub fn check_node_inputs(rv: &RefVerdict, obs: &[NodeObs], out: &mut Vec<Issue>) -> (u64, u64) {
+pub fn check_node_inputs(rv: &RefVerdict, obs: &[NodeObs], beacons: &[Beacon], out: &mut Vec<Issue>) -> (u64, u64) {
+    let start_seq: BTreeMap<(Word, Word), u64> = beacons.iter().filter(|b| b.kind == B_START).map(|b| ((b.tag, b.node), b.seq)).collect();
     if matches!(rv, RefVerdict::Unspec(_)) {
         return (0, 0);
     }
@@ -1052,7 +1059,7 @@ pub fn check_node_inputs(rv: &RefVerdict, obs: &[NodeObs], out: &mut Vec<Issue>)
                 if e.stack == o.stack && e.mem == o.mem {
                     matched += 1;
                 } else {
-                    issue(out, "C01", "node-input", format!("node id {} of solution tag {} started from stack {:?} (len {}) memory {:?} (len {}); concatenating its parents' results in ascending order gives stack {:?} (len {}) memory {:?} (len {})", o.abs, o.tag, tail(&o.stack), o.stack.len(), tail(&o.mem), o.mem.len(), tail(&e.stack), e.stack.len(), tail(&e.mem), e.mem.len()));
+                    issue_at(out, "C01", "node-input", format!("node id {} of solution tag {} started from stack {:?} (len {}) memory {:?} (len {}); concatenating its parents' results in ascending order gives stack {:?} (len {}) memory {:?} (len {})", o.abs, o.tag, tail(&o.stack), o.stack.len(), tail(&o.mem), o.mem.len(), tail(&e.stack), e.stack.len(), tail(&e.mem), e.mem.len()), start_seq.get(&(o.tag, o.abs)).copied().unwrap_or(u64::MAX - 1));
                 }
             }
             None => {
